@@ -567,10 +567,16 @@ func (b *BoxFields) PageValues() (pr.Page, pr.Page) {
 		}
 	}
 	if fistChild != nil {
-		if childStart, _ := fistChild.PageValues(); childStart != "" {
+		// an only child is visited once : visiting it twice at each level
+		// takes a time exponential in the depth of the tree
+		childStart, childEnd := fistChild.PageValues()
+		if lastChild != fistChild {
+			_, childEnd = lastChild.PageValues()
+		}
+		if childStart != "" {
 			start = childStart
 		}
-		if _, childEnd := lastChild.PageValues(); childEnd != "" {
+		if childEnd != "" {
 			end = childEnd
 		}
 	}
